@@ -117,6 +117,21 @@ theorem C18_makeTable_negative_width_is_zero {α : Type} (cx : Ctx α) (d : List
   unfold makeTable
   rw [if_pos hw, if_neg (by decide)]
 
+/-- D21, the same for InsertDefinitionsTableOpts (`width - leftWidth - minBetween` wrapped around
+and the definitions were not wrapped at all): every negative width behaves as 0 … -/
+theorem C18_defTable_negative_width_is_zero {α : Type} [DecidableEq α] (cx : Ctx α) (ed : Editor α) (p : Int)
+    (defs : List (List α × List α)) (w : Int) (o : Options α) (hw : w < 0) :
+    ed.insertDefTableOpts cx p defs w o = ed.insertDefTableOpts cx p defs 0 o := by
+  unfold Editor.insertDefTableOpts
+  rw [if_pos hw, if_neg (by decide)]
+
+/-- … and on ideal integers the unclamped function gives the same result (Wrap takes every width
+below 2 as 2) -/
+theorem C18_defTable_clamp_conservative {α : Type} [DecidableEq α] (cx : Ctx α) (ed : Editor α) (p : Int)
+    (defs : List (List α × List α)) (w : Int) (o : Options α) :
+    ed.insertDefTableOpts cx p defs w o = ed.insertDefTableOptsCore cx p defs w o :=
+  Editor.insertDefTableOptsCore_clamp cx ed p defs w o
+
 /-- the clamp is not a change of behaviour where nothing overflows: on ideal integers the unclamped
 functions give the same results -/
 theorem C18_align_clamp_conservative {α : Type} (cx : Ctx α) (t : List α) (w : Int) :
